@@ -122,6 +122,11 @@ func (m *Machine) visitInstr(fr *frame, instr ssa.Instruction) continuation {
 				}
 			}
 		}
+		if m.race != nil && instr.Op == token.MUL {
+			if p, ok := fr.get(instr.X).(*value); ok && p != nil {
+				m.raceRead(p, fr, instr)
+			}
+		}
 		fr.env[instr] = m.unop(fr, instr, fr.get(instr.X))
 
 	case *ssa.BinOp:
@@ -198,6 +203,9 @@ func (m *Machine) visitInstr(fr *frame, instr ssa.Instruction) continuation {
 			}
 			m.seg.storeCell(m, p, fr.get(instr.Val))
 			break
+		}
+		if m.race != nil {
+			m.raceWrite(p, fr, instr)
 		}
 		store(nil, p, fr.get(instr.Val))
 
@@ -289,6 +297,11 @@ func (m *Machine) visitInstr(fr *frame, instr ssa.Instruction) continuation {
 		fr.env[instr] = newOmap(instr.Type().Underlying().(*types.Map).Key())
 
 	case *ssa.Range:
+		if m.race != nil {
+			if mm, ok := fr.get(instr.X).(*omap); ok && mm != nil {
+				m.raceRead(mm, fr, instr)
+			}
+		}
 		fr.env[instr] = m.rangeIter(m.resolveTok(fr.get(instr.X)))
 
 	case *ssa.Next:
@@ -341,10 +354,18 @@ func (m *Machine) visitInstr(fr *frame, instr ssa.Instruction) continuation {
 		}
 
 	case *ssa.Lookup:
+		if m.race != nil {
+			if mm, ok := fr.get(instr.X).(*omap); ok && mm != nil {
+				m.raceRead(mm, fr, instr)
+			}
+		}
 		fr.env[instr] = m.lookup(instr, fr.get(instr.X), fr.get(instr.Index))
 
 	case *ssa.MapUpdate:
 		mm := fr.get(instr.Map).(*omap)
+		if m.race != nil && mm != nil {
+			m.raceWrite(mm, fr, instr)
+		}
 		m.omapSet(mm, fr.get(instr.Key), copyVal(fr.get(instr.Value)))
 
 	case *ssa.TypeAssert:
@@ -514,6 +535,15 @@ func (m *Machine) callSSA(caller *frame, callpos token.Pos, fn *ssa.Function, ar
 		if m.preemptMode && fn.Pkg != nil {
 			if pp := fn.Pkg.Pkg.Path(); (pp == "sync" || pp == "sync/atomic") && !strings.Contains(fn.String(), "sync.Pool") {
 				m.schedPoint(fn.String())
+			}
+		}
+		if m.race != nil && fn.Pkg != nil {
+			if pp := fn.Pkg.Pkg.Path(); pp == "sync" || pp == "sync/atomic" {
+				name := fn.String()
+				m.raceSyncBefore(name, args)
+				res := ext(fr, args)
+				m.raceSyncAfter(name, args, res)
+				return res
 			}
 		}
 		if m.seg != nil && fn.Pkg != nil && fn.Pkg.Pkg.Path() == "sync/atomic" {
